@@ -222,7 +222,7 @@ struct ArrW {
                 if (j == k) break;
                 {
                     LibCall lc;
-                    a = static_cast<Arr &&>(*obj[k]);
+                    assign_in_own_unit(a, static_cast<Arr &&>(*obj[k]));
                 }
                 m = model[k];
                 model[k].clear();
@@ -238,7 +238,7 @@ struct ArrW {
             }
             case A_ADD_ITEM_M: {
                 LibCall lc;
-                a += Elem<T>::make(tok);
+                append_in_own_unit(a, Elem<T>::make(tok));
                 m.push_back(tok);
                 break;
             }
@@ -520,7 +520,7 @@ struct NodeW {
                 Arr                *o  = nav(1 - j, (uint64_t)op.a[2], om);
                 {
                     LibCall lc;
-                    *a += static_cast<Arr &&>(*o);
+                    append_in_own_unit(*a, static_cast<Arr &&>(*o));
                 }
                 m->insert(m->end(), om->begin(), om->end());
                 om->clear();
@@ -547,13 +547,13 @@ struct NodeW {
             case N_COPY_ROOT: {
                 if (count(model[0]) + count(model[1]) > 60) break;
                 LibCall lc;
-                *root[j] = static_cast<const Arr &>(*root[1 - j]);
+                assign_in_own_unit(*root[j], static_cast<const Arr &>(*root[1 - j]));
                 model[j] = model[1 - j];
                 break;
             }
             case N_MOVE_ROOT: {
                 LibCall lc;
-                *root[j] = static_cast<Arr &&>(*root[1 - j]);
+                assign_in_own_unit(*root[j], static_cast<Arr &&>(*root[1 - j]));
                 model[j] = model[1 - j];
                 model[1 - j].clear();
                 break;
@@ -756,7 +756,7 @@ struct StrW {
             }
             case S_COPY_ASSIGN: {
                 LibCall lc;
-                s = *obj[k];
+                assign_in_own_unit(s, *obj[k]);
                 if (j != k) m = model[k];
                 break;
             }
@@ -764,7 +764,7 @@ struct StrW {
                 if (j == k) break;
                 {
                     LibCall lc;
-                    s = static_cast<Str &&>(*obj[k]);
+                    assign_in_own_unit(s, static_cast<Str &&>(*obj[k]));
                 }
                 m = model[k];
                 model[k].clear();
@@ -775,7 +775,7 @@ struct StrW {
                 U32          z = cut_at_nul(txt);
                 ArenaText<C> t(z, true);
                 LibCall      lc;
-                s = (const C *)t.ptr;
+                assign_in_own_unit(s, (const C *)t.ptr);
                 m = z;
                 break;
             }
@@ -783,7 +783,7 @@ struct StrW {
                 U32 src = model[k];
                 {
                     LibCall lc;
-                    s += *obj[k];
+                    append_in_own_unit(s, *obj[k]);
                 }
                 if (j == k && !src.empty()) qsim::probe("seq.string.self-append");
                 m += src;
@@ -793,7 +793,7 @@ struct StrW {
                 if (j == k) break;
                 {
                     LibCall lc;
-                    s += static_cast<Str &&>(*obj[k]);
+                    append_in_own_unit(s, static_cast<Str &&>(*obj[k]));
                 }
                 m += model[k];
                 model[k].clear();
@@ -803,7 +803,7 @@ struct StrW {
                 U32          z = cut_at_nul(txt);
                 ArenaText<C> t(z, true);
                 LibCall      lc;
-                s += (const C *)t.ptr;
+                append_in_own_unit(s, (const C *)t.ptr);
                 m += z;
                 break;
             }
@@ -811,7 +811,7 @@ struct StrW {
                 C ch = (C)(op.a[3] & unit_mask<C>());
                 {
                     LibCall lc;
-                    s += ch;
+                    append_in_own_unit(s, ch);
                 }
                 // operator+=(Char_T) writes one unit whatever its value
                 m.push_back((char32_t)(typename std::make_unsigned<C>::type)ch);
@@ -1174,7 +1174,7 @@ struct StmW {
             }
             case T_COPY_ASSIGN: {
                 LibCall lc;
-                s = *obj[k];
+                assign_in_own_unit(s, *obj[k]);
                 if (j != k) m = model[k];
                 break;
             }
@@ -1182,7 +1182,7 @@ struct StmW {
                 if (j == k) break;
                 {
                     LibCall lc;
-                    s = static_cast<Stm &&>(*obj[k]);
+                    assign_in_own_unit(s, static_cast<Stm &&>(*obj[k]));
                 }
                 m = model[k];
                 model[k].clear();
@@ -1193,7 +1193,7 @@ struct StmW {
                 U32          z = cut_at_nul(txt);
                 ArenaText<C> t(z, true);
                 LibCall      lc;
-                s = (const C *)t.ptr;
+                assign_in_own_unit(s, (const C *)t.ptr);
                 m = z;
                 break;
             }
@@ -1651,14 +1651,14 @@ struct ViewW {
             }
             case V_COPY_ASSIGN: {
                 LibCall lc;
-                v = *obj[k];
+                assign_in_own_unit(v, *obj[k]);
                 if (j != k) m = model[k];
                 break;
             }
             case V_MOVE_ASSIGN: {
                 if (j == k) break;
                 LibCall lc;
-                v = static_cast<View &&>(*obj[k]);
+                assign_in_own_unit(v, static_cast<View &&>(*obj[k]));
                 m = model[k];
                 model[k].clear();
                 break;
